@@ -8,7 +8,7 @@ from typing import Dict, List, Optional, Tuple
 from sa.index import AnalysisError, ClassInfo, dotted_name
 from sa.models import shape_str, strip_opt
 from sa.report import Ctx
-from sa.sym import FALSE, NONE, NOT, TRUE, Summary, show, subst, walk
+from sa.sym import expand_pure_calls, fold_sub, FALSE, NONE, NOT, TRUE, Summary, show, subst, walk
 
 from .aoef import AOEF_PKG, Aoef, Collection, Leaf, attr_reads, relfile
 
@@ -227,6 +227,8 @@ class C01:
         t = rets[0].term
         if not (t[0] == "call" and t[1][0] == "global" and t[1][2] == "class"):
             raise AnalysisError(f"return value is not a constructor call: {show(t)[:80]}", site=site)
+        # see through pure accessors of the adapter (e.g. key, value = self._get_soundevent_key(obj))
+        t = (t[0], t[1], t[2], tuple((k, fold_sub(expand_pure_calls(v, self.ctx.summ, cls, owner.module))) for k, v in t[3]))
         target = self.ctx.index.class_by_qual(t[1][1])
         if t[2]:
             raise AnalysisError("positional arguments in model constructor", site=site)
@@ -959,17 +961,17 @@ class C01:
         obj = ("param", s.params[1])
         key = ("call", ("attr", SELF, "_get_aoef_key"), (obj,), ())
         site = f"{file}:{s.node.lineno} DataAdapter.to_soundevent"
-        sts = [e for e in s.of("store") if e.term[1][0] == "sub" and e.term[1][1] == store]
         asm = ("call", ("attr", SELF, "assemble_soundevent"), (obj,), ())
-        good = len(sts) == 1 and sts[0].term[1][2] == key and sts[0].term[2] == asm and ("cmp", "notin", key, store) in conjuncts_(sts[0].live)
-        rets = s.returns
-        good = good and len(rets) == 1 and rets[0].term == ("sub", store, key)
+        from sa.memo import memo_verdict, scenarios
+        sc = scenarios(s, store, key)
+        good, why = memo_verdict(sc, store, key, lambda v: v == asm)
         if good:
             ctx.ok("R01.7", site, "_soundevent_store[key(obj)] = assemble_soundevent(obj) once per key; returns the stored object")
         else:
             ctx.bad("R01.7", file, "DataAdapter.to_soundevent", "self._soundevent_store[obj_id] = soundevent_obj",
                     "on load an object must be rebuilt once per document id (keyed by _get_aoef_key(obj)) and that very object "
-                    "returned: otherwise shared sub-objects are duplicated or references resolve to the wrong object", s.node.lineno)
+                    f"returned ({why}): otherwise shared sub-objects are duplicated or references resolve to the wrong object",
+                    s.node.lineno)
         f = ctx.summ.of_func(ADAPTERS_MOD, "DataAdapter.from_id")
         oid = ("param", f.params[1])
         if len(f.returns) == 1 and f.returns[0].term in (("call", ("attr", store, "get"), (oid,), ()), ("call", ("attr", store, "get"), (oid, NONE), ())):
@@ -1013,8 +1015,9 @@ class C01:
             rs = self.ctx.summ.of_node(ci.module, ci.methods[rn][-1], f"{ci.qual}.{rn}", ci) if rn in ci.methods else None
             if ws is not None:
                 for r_ in ws.returns:
-                    uses = [x for x in walk(r_.term) if x[0] == "attr" and x[2] == "term"]
-                    wrapped = [x[2][0] for x in walk(r_.term) if x[0] == "call" and x[1] == kft and len(x[2]) == 1]
+                    rt = fold_sub(expand_pure_calls(r_.term, self.ctx.summ, ci, ci.module))
+                    uses = [x for x in walk(rt) if x[0] == "attr" and x[2] == "term"]
+                    wrapped = [x[2][0] for x in walk(rt) if x[0] == "call" and x[1] == kft and len(x[2]) == 1]
                     for u in uses:
                         if u in wrapped:
                             ctx.ok("R01.7", f"{ci.module.relpath}:{r_.lineno} {ci.name}.{wn}", f"term {show(u)[:30]} written through key_from_term")
@@ -1024,7 +1027,7 @@ class C01:
                                     f"so the label would not round-trip)", r_.lineno)
             if rs is not None:
                 for r_ in rs.returns:
-                    for x in walk(r_.term):
+                    for x in walk(fold_sub(expand_pure_calls(r_.term, self.ctx.summ, ci, ci.module))):
                         if x[0] == "call" and x[1][0] == "global" and x[1][2] == "class":
                             tv = dict(x[3]).get("term")
                             if tv is None:
